@@ -100,7 +100,15 @@ func runSolver(ctx context.Context, sc SolverCfg, file string, timeoutS, seed in
 	_ = cmd.Run()
 	dur := time.Since(start).Seconds()
 	text := out.String()
-	first := strings.TrimSpace(strings.SplitN(text, "\n", 2)[0])
+	first := ""
+	for _, ln := range strings.Split(text, "\n") {
+		ln = strings.TrimSpace(ln)
+		if ln == "" || strings.HasPrefix(ln, "WARNING") || strings.HasPrefix(ln, "(warning") {
+			continue
+		}
+		first = ln
+		break
+	}
 	status := "error"
 	switch {
 	case first == "unsat":
